@@ -249,6 +249,11 @@ def block_cause(root):
   return "explicit"
 
 
+def _short(v):
+  if isinstance(v, int) and not isinstance(v, bool) and v.bit_length() > 256: return f"<int of {v.bit_length()} bits>"
+  return v
+
+
 def check_chunk(items, acc):
   """items: [(k, text, shape, form)]"""
   from pymtl3 import DefaultPassGroup, Bits
@@ -329,7 +334,7 @@ def check_chunk(items, acc):
         idx, (kind, got) = sorted(seen_w.items())[0]
         n, w, ex, role = nodes[idx]
         acc.violation(f"static-width-differs:{block_cause(up[blk])}:{type(n).__name__}:{fsig}", case, f"{w} bits ({'explicit' if ex else 'implicit'})",
-                      f"runtime {kind} {got}", f"sub-expression {ast.unparse(n.ast) if hasattr(ast, 'unparse') else ''} in `{text}`")
+                      f"runtime {kind} {_short(got)}", f"sub-expression {ast.unparse(n.ast) if hasattr(ast, 'unparse') else ''} in `{text}`")
       if raised is not None and not carve:
         acc.violation(f"accepted-block-raises:{block_cause(up[blk])}:{_errkind(raised)}:{fsig}", case, "no width / truncation error", str(raised).splitlines()[0][:120], f"`{form[0]} <- {text}`")
       if carve: acc.count("carve_out_blocks")
